@@ -10,13 +10,15 @@ from ddsim import gen, ops, ops_expr
 from ddsim.ops import call, declared, take_result
 
 
-def _tt_of(w, table, n):
-    """Expand a table over the first n names to the run's universe."""
+def _tt_of(w, table, n, ks=None):
+    """Expand a table over n names (the first n unless `ks` lists others) to
+    the run's universe."""
     T = w.tt
+    ks = list(range(n)) if ks is None else ks
     res = 0
     for a in range(1 << n):
         if (table >> a) & 1:
-            res |= T.cube({k: bool((a >> k) & 1) for k in range(n)})
+            res |= T.cube({ks[j]: bool((a >> j) & 1) for j in range(n)})
     return res
 
 
@@ -25,23 +27,42 @@ def op_mk_tt(w, ins):
     g = w.mgrs[m]
     n = ins['n']
     dec = declared(w, m)
-    if any(k not in dec for k in range(n)):
-        return 'skip'
+    if ins.get('any'):
+        # a function of (up to) n of the declared names, whichever they are
+        pool = sorted(dec)
+        if not pool:
+            return 'skip'
+        n = min(n, len(pool))
+        off = ins.get('off', 0) % len(pool)
+        ks = sorted((pool + pool)[off:off + n])
+        if len(set(ks)) != n:
+            return 'skip'
+    else:
+        if any(k not in dec for k in range(n)):
+            return 'skip'
+        ks = list(range(n))
     T = w.tt
     table = ins['tt'] & ((1 << (1 << n)) - 1)
-    want = _tt_of(w, table, n)
+    want = _tt_of(w, table, n, ks)
+    w.stats['mk_tt'] += 1
     route = ins.get('route', 0)
     api = g.api
     sn = w.snapshot(m)
+    if ins.get('any') and g.flavor == 'raw' and api.configure()['reordering']:
+        # with integer references, intermediate results held across calls are
+        # unreferenced: with reordering on that is the caller's risk (C09
+        # covers dd.bdd for referenced operands), so build in one call
+        route = 3
 
     if route == 0 and g.flavor == 'raw':
         # node by node with find_or_add, following the current order
-        order = [w.name_idx[nm] for nm in sn.order if w.name_idx[nm] < n]
+        order = [w.name_idx[nm] for nm in sn.order if w.name_idx.get(nm) in ks]
         lvl = {k: sn.order.index(w.names[k]) for k in order}
+        pos = {k: j for j, k in enumerate(ks)}
 
         def build(asg, i):
             if i == len(order):
-                idx = sum(1 << k for k, v in asg.items() if v)
+                idx = sum(1 << pos[k] for k, v in asg.items() if v)
                 return 1 if (table >> idx) & 1 else -1
             k = order[i]
             lo = build({**asg, k: 0}, i + 1)
@@ -50,13 +71,13 @@ def op_mk_tt(w, ins):
         ok, v = call(w, build, {}, 0)
     elif route == 1 or (route == 0 and g.flavor != 'raw'):
         # Shannon expansion with ite on variables, top name first
-        def build(asg, k):
-            if k == n:
-                idx = sum(1 << j for j, v in asg.items() if v)
+        def build(asg, j):
+            if j == n:
+                idx = sum(1 << i for i, v in asg.items() if v)
                 return api.true if (table >> idx) & 1 else api.false
-            lo = build({**asg, k: 0}, k + 1)
-            hi = build({**asg, k: 1}, k + 1)
-            return api.ite(api.var(w.names[k]), hi, lo)
+            lo = build({**asg, j: 0}, j + 1)
+            hi = build({**asg, j: 1}, j + 1)
+            return api.ite(api.var(w.names[ks[j]]), hi, lo)
         ok, v = call(w, build, {}, 0)
     elif route == 2:
         # disjunction of minterm cubes via apply
@@ -64,7 +85,7 @@ def op_mk_tt(w, ins):
             r = api.false
             for a in range(1 << n):
                 if (table >> a) & 1:
-                    c = api.cube({w.names[k]: bool((a >> k) & 1) for k in range(n)})
+                    c = api.cube({w.names[ks[j]]: bool((a >> j) & 1) for j in range(n)})
                     r = api.apply('or', r, c)
             return r
         ok, v = call(w, build)
@@ -73,7 +94,7 @@ def op_mk_tt(w, ins):
         terms = []
         for a in range(1 << n):
             if (table >> a) & 1:
-                lits = [(w.names[k] if (a >> k) & 1 else '~ ' + w.names[k]) for k in range(n)]
+                lits = [(w.names[ks[j]] if (a >> j) & 1 else '~ ' + w.names[ks[j]]) for j in range(n)]
                 terms.append('(' + ' /\\ '.join(lits) + ')' if lits else 'TRUE')
         text = ' \\/ '.join(terms) if terms else 'FALSE'
         ok, v = call(w, api.add_expr, text)
@@ -81,6 +102,17 @@ def op_mk_tt(w, ins):
 
 
 ops.register('mk_tt', op_mk_tt, 'C02')
+
+
+def gen_mk_tt(w, r, cfg):
+    """A handle on a random function of 2-5 declared names (random
+    workloads: operands that are not just variables)."""
+    n = r.choice([2, 3, 3, 4, 4, 5])
+    return dict(op='mk_tt', any=1, n=n, off=r.randrange(16), tt=r.getrandbits(1 << n), route=r.randrange(4),
+                keep=True)
+
+
+gen.register('mk_tt', gen_mk_tt)
 
 BG_WEIGHTS = [('gc', 4), ('swap', 5), ('reorder', 2), ('pairs', 1), ('finalize', 2), ('arm_final', 1)]
 _BIN = ['and', 'or', 'xor', 'implies', 'equiv', 'diff']
